@@ -7,7 +7,7 @@
    post   = idx.flag,... applied after the range was built, or "-"
    hdrs   = hex,hex,... header lines or "-";  body = hex or "-"
    parts  = w | k<n> | c<cut>.<cut>... | all1 | all2
-   opts   = "-" or comma list of: trunc<n>, clr, auto
+   opts   = "-" or comma list of: trunc<n>, clr, auto, fault=<write|lseek>.<k>.<kind>.<n> (C12: k-th call fails)
    Session form (several transfers on one zckDL, reset + new missing range before each):
      S <ht> <doff> <chunks> <t>/<t>/... <opts>     t = <hdrs>:<body>:<parts>[:r]  (parts = w | k<n> | c<cut>.<cut>...;
      :r = zck_find_valid_chunks + zck_reset_failed_chunks before this transfer); the line ends with I=<flags after
@@ -62,7 +62,7 @@ let lm_report () =
 
 type cs = { ht : int; doff : int; lens : int array; flags0 : int array; data : string array;
             starts : int array; ridx_t : int list; flags : int array; hdrs : string list;
-            body : string; init_file : string; clr : bool }
+            body : string; init_file : string; clr : bool; sched : wout list * bool list }
 
 let vflag_of = function 0 -> VUnknown | 1 -> VValid | _ -> VFailed
 let int_of_vflag = function VUnknown -> 0 | VValid -> 1 | VFailed -> -1
@@ -87,10 +87,17 @@ let run_partition (c : cs) (frags : string list) =
   let doff = n_of_int c.doff in
   let x = List.fold_left (fun x l -> header_cb rx_comp rx_exec x (bytes_of_string l)) x0 c.hdrs in
   let rets = Buffer.create 16 in
+  let sched = ref c.sched in
+  let faulty = c.sched <> ([], []) in
   let rec go x = function
     | [] -> x
     | fr :: rest ->
-      let ((x', ok), st) = write_cb h doff ridx rx_comp rx_exec x (bytes_of_string fr) in
+      let ((x', ok), st) =
+        if faulty then begin
+          (* Io/DlFaults.v: the same callback with write(2)/lseek(2) on the target following the schedule *)
+          let (((x', k'), ok), st) = write_cb_F h doff ridx rx_comp rx_exec x !sched (bytes_of_string fr) in
+          sched := k'; ((x', ok), st) end
+        else write_cb h doff ridx rx_comp rx_exec x (bytes_of_string fr) in
       (match st with
        | MOOB -> Buffer.add_char rets 'X'; x'
        | MFuel -> Buffer.add_char rets 'U'; x'
@@ -215,9 +222,21 @@ let mk_case ht doff chunks ridx post hdrs body opts =
       let k = int_of_string (String.sub o 5 (String.length o - 5)) in
       if k < String.length f then String.sub f 0 k else f
     else f) (Buffer.contents buf) opts in
+  (* fault=<write|lseek>.<k>.<eio|enospc|eintr|short>.<n>: the k-th call of that kind on the target fails (C12) *)
+  let sched = List.fold_left (fun acc o ->
+    if String.length o > 6 && String.sub o 0 6 = "fault=" then
+      match String.split_on_char '.' (String.sub o 6 (String.length o - 6)) with
+      | [op; k; kind; sh] ->
+        let k = int_of_string k in
+        if op = "write" then
+          (List.init (k - 1) (fun _ -> WFull) @ [if kind = "short" then WShort (n_of_int (int_of_string sh)) else WErr], [])
+        else if op = "lseek" then ([], List.init (k - 1) (fun _ -> true) @ [false])
+        else acc
+      | _ -> failwith "fault"
+    else acc) ([], []) opts in
   { ht; doff; lens; flags0; data; starts; ridx_t = List.map int_of_string (split_on ',' ridx);
     flags; hdrs = List.map string_of_hex (split_on ',' hdrs);
-    body = string_of_hex body; init_file; clr = List.mem "clr" opts }
+    body = string_of_hex body; init_file; clr = List.mem "clr" opts; sched }
 
 let () = iter_lines (fun line ->
   match split_ws line with
